@@ -9,9 +9,11 @@ import (
 	"bufio"
 	"context"
 	"fmt"
+	"net/http"
 	"net/http/httptest"
 	"os"
 	"os/exec"
+	"reflect"
 	"strings"
 	"sync"
 	"testing"
@@ -36,13 +38,27 @@ func TestMain(m *testing.M) {
 // reverse client support) and prints its address. It exits when stdin closes.
 func hostServer() {
 	w := NewWorld()
-	rpc := jsonrpc.NewServer(jsonrpc.WithReverseClient[RevClient]("Rev"))
-	rpc.Register("T", NewBasicAPI())
-	rpc.Register("Tok", &TokAPI{W: w})
-	for a, to := range c09Aliases {
-		rpc.AliasMethod(a, to)
+	mk := func(opts ...jsonrpc.ServerOption) *jsonrpc.RPCServer {
+		rpc := jsonrpc.NewServer(append([]jsonrpc.ServerOption{jsonrpc.WithReverseClient[RevClient]("Rev")}, opts...)...)
+		rpc.Register("T", NewBasicAPI())
+		rpc.Register("Tok", &TokAPI{W: w})
+		for a, to := range c09Aliases {
+			rpc.AliasMethod(a, to)
+		}
+		return rpc
 	}
-	srv := httptest.NewServer(rpc)
+	// the same services twice: at / as before, at /traced behind a server built with a tracer that looks at everything it
+	// is handed (what a handler does, panics included, must not depend on being traced)
+	mux := http.NewServeMux()
+	mux.Handle("/traced", mk(jsonrpc.WithTracer(func(method string, params []reflect.Value, results []reflect.Value, err error) {
+		for _, v := range append(append([]reflect.Value{}, params...), results...) {
+			if v.IsValid() && v.CanInterface() {
+				_ = fmt.Sprintf("%T", v.Interface())
+			}
+		}
+	})))
+	mux.Handle("/", mk())
+	srv := httptest.NewServer(mux)
 	fmt.Printf("LISTEN %s\n", srv.Listener.Addr().String())
 	sc := bufio.NewScanner(os.Stdin)
 	for sc.Scan() {
